@@ -456,12 +456,12 @@ type emit struct {
 // MySQL DATA_TYPE names; the JDBC code comes from the real MySQLStrToJavaType, the Go kind from the
 // scan target base_executor.go GetScanSlice picks (mirrored here: it is a method of an unexported type)
 var dataTypes = []struct{ name, kind string }{
-	{"tinyint", "i"}, {"smallint", "i"}, {"mediumint", "i"}, {"int", "i"}, {"bigint", "i"}, {"bit", "i"}, {"longblob", "i"},
+	{"tinyint", "i"}, {"smallint", "i"}, {"mediumint", "i"}, {"int", "i"}, {"bigint", "i"}, {"bit", "i"}, {"year", "i"},
 	{"decimal", "f"}, {"double", "f"}, {"float", "f"},
-	{"date", "t"}, {"datetime", "t"}, {"timestamp", "t"}, {"time", "t"}, {"year", "t"},
+	{"date", "t"}, {"datetime", "t"}, {"timestamp", "t"}, {"time", "t"},
 	{"varchar", "s"}, {"char", "s"}, {"text", "s"}, {"json", "s"}, {"tinytext", "s"},
 	{"mediumtext", "b"}, {"longtext", "b"}, {"enum", "b"}, {"set", "b"}, {"binary", "b"}, {"varbinary", "b"},
-	{"tinyblob", "b"}, {"blob", "b"}, {"mediumblob", "b"}, {"geometry", "b"}, {"point", "b"},
+	{"tinyblob", "b"}, {"blob", "b"}, {"mediumblob", "b"}, {"longblob", "b"}, {"geometry", "b"}, {"point", "b"},
 }
 
 func emits() []emit {
